@@ -99,4 +99,12 @@ CHECKS = {
              "checks": ["c01-delivery"]},
         ],
     },
+    "C02": {
+        "level": "exploration",
+        "groups": [
+            {"name": "c02", "run": "^TestC02_", "shards": {"quick": 16, "thorough": 16},
+             "timeout": {"quick": 900, "thorough": 3000},
+             "checks": ["c02-wire-order", "c02-handler-order"]},
+        ],
+    },
 }
